@@ -44,7 +44,11 @@ Section Chain.
     mkBlock (match last_block (chain c) with None => zero_hash | Some l => H l end)
             (filter_new (ar c) new_addrs) (removed_addresses (ar c)) ts l.
   Definition add_block (c : cstate) (ts : Z) (l : slice tx) (new_addrs : list string) : res err cstate :=
-    add_block_raw c (make_block c ts l new_addrs).
+    match last_block (chain c) with
+    | Some p => if (ts <=? b_ts p)%Z then Err ETime   (* not dated after the tip: refused under the chain lock *)
+                else add_block_raw c (make_block c ts l new_addrs)
+    | None => add_block_raw c (make_block c ts l new_addrs)
+    end.
 
   (* go: blockchain.go:59-73 Blocks. uint64 arithmetic: h + limit wraps. [Err (EPanic PsSliceBounds)]
      is the slice expression blocks[h:end] with end < h. *)
